@@ -6,6 +6,6 @@ CONSTANTS NThr = 2  MaxEnt = 3  MaxRemote = 1  MaxDepth = 1  MaxOps = 6
 INIT Init
 NEXT Next
 VIEW ViewState
-INVARIANTS TypeOK SameTraceAsParent RootHasNoParent FreshSpanId FlagsLevel1Only SampledIsDecision
+INVARIANTS TypeOK StackOK SameTraceAsParent RootHasNoParent FreshSpanId FlagsLevel1Only SampledIsDecision
            DroppedNeverExported OnlyListedDeviations
-PROPERTIES ThreadsIsolated StartRules
+PROPERTIES ThreadsIsolated StartRules ReleaseUnwindsOnlyAbove
